@@ -1,5 +1,6 @@
 """C02 - the Verilog parser yields the circuit the netlist denotes."""
 import random
+import re
 import zlib
 
 from rv.gen import netlists as N
@@ -93,6 +94,8 @@ def check(case, ctx):
         return
     if case.get("decoy"):
         ctx.count("decoy_module_" + case["decoy"])
+    if re.search(r"\)\s*,\s*[A-Za-z_\\][^\s(]*\s*\(\s*\.", text):
+        ctx.count("multi_instance_blackbox_statement")
     if "\r\n" in text:
         ctx.count("crlf_line_endings")
     if not text.endswith("\n"):
@@ -205,6 +208,6 @@ def gates(counters, table, tier):
     for op in ("and", "or", "xor", "xnor", "not"):
         if counters.get(f"expr:{op}", 0) < 50:
             out.append(f"operator {op} generated {counters.get(f'expr:{op}', 0)} times")
-    need = ["decoy_module_after", "decoy_module_before", "infer_module_name", "wrong_module_name", "expr:tern", "expr:repeated_subexpr", "multi_instance_statement", "pin:unconnected", "pin:omitted", "pin:net", "line_comments", "block_comments", "escaped_names", "lookalike_names", "expr:wide_chain", "expr:long_names", "crlf_line_endings", "no_final_newline", "blackboxes_as:tuple", "blackboxes_as:set"] + [f"neg:{n}" for n in NEG]
+    need = ["decoy_module_after", "decoy_module_before", "infer_module_name", "wrong_module_name", "expr:tern", "expr:repeated_subexpr", "multi_instance_statement", "pin:unconnected", "pin:omitted", "pin:net", "line_comments", "block_comments", "escaped_names", "lookalike_names", "expr:wide_chain", "expr:long_names", "crlf_line_endings", "no_final_newline", "multi_instance_blackbox_statement", "blackboxes_as:tuple", "blackboxes_as:set"] + [f"neg:{n}" for n in NEG]
     out += [f"{k} seen {counters.get(k, 0)} times" for k in need if counters.get(k, 0) < 3]
     return out
